@@ -917,7 +917,7 @@ func corpusSpecs(prop, tier string, depthQ, depthT int, exactToo bool, check fun
 				}
 				// 0.5 at two different values: fractional bins whose total equals the number of bins
 				sp.Ops = append(sp.Ops, skAddW(0, 1, 0.5), skAddW(0, 7.3, 0.5), skAddW(0, -7.3, 2), skAddW(0, 0, 0.25), skAddW(0, 2.5, 1<<20), skAddRunV(0, 1.0, 70),
-					skAdd(1, 1), skAdd(1, -7.3), skAddW(1, 0, 3), skAddW(1, 1e3, 3),
+					skAdd(1, 1), skAdd(1, -7.3), skAddW(1, 0, 3), skAddW(1, 1e3, 3), skAddRunStride(1, 1.0, 100, 3),
 					skMerge(0, 1), skClear(0), skReweight(0, 0.5), skCodec(0, 1, false, false), skReadEncode(0))
 				sp.Ops = append(sp.Ops, extra...)
 				specs = append(specs, sp)
@@ -929,20 +929,28 @@ func corpusSpecs(prop, tier string, depthQ, depthT int, exactToo bool, check fun
 
 // skAddRunV: n unit additions of consecutive bins starting at v (macro: makes
 // the paginated store compact and the dense store choose the contiguous layout).
-func skAddRunV(s int, v float64, n int) skOp {
-	return skOp{name: fmt.Sprintf("%s.AddRun(from %s, %d consecutive bins)", slotName(s), fstr(v), n), tag: "add", writes: 1 << uint(s),
+func skAddRunV(s int, v float64, n int) skOp { return skAddRunStride(s, v, n, 1) }
+
+// skAddRunStride: n unit additions, one every stride-th bin (scattered entries
+// stay in the paginated store's buffer: no page ever gets 32 of them).
+func skAddRunStride(s int, v float64, n, stride int) skOp {
+	name := fmt.Sprintf("%s.AddRun(from %s, %d consecutive bins)", slotName(s), fstr(v), n)
+	if stride != 1 {
+		name = fmt.Sprintf("%s.AddRun(from %s, %d bins, one every %d)", slotName(s), fstr(v), n, stride)
+	}
+	return skOp{name: name, tag: "add", writes: 1 << uint(s),
 		real: func(w *SketchWorld, st []*SkSlot, _ bool) {
 			m := st[s].Mapping()
 			i0 := m.Index(v)
 			for j := 0; j < n; j++ {
-				must(st[s].Q().Add(m.Value(i0+j)), "AddRun")
+				must(st[s].Q().Add(m.Value(i0+j*stride)), "AddRun")
 			}
 		},
 		mod: func(w *SketchWorld) {
 			m := w.M[s].Map
 			i0 := m.Index(v)
 			for j := 0; j < n; j++ {
-				w.M[s].Add(m.Value(i0+j), 1)
+				w.M[s].Add(m.Value(i0+j*stride), 1)
 			}
 		}}
 }
